@@ -98,6 +98,9 @@ func refAtom(code string, env *refEnv) (string, int) {
 		return t[1 : len(t)-1], clsExact
 	case t == "{" || t == "}" || t == "\"":
 		return "", clsFail
+	case t == "nosuch()" || t == "1 + null" || t == "raise(1)" || t == "a.b.c.d":
+		// parses and validates, fails when evaluated: the inline marker is due
+		return "", clsFail
 	}
 	env.ticksHi += strings.Count(t, "tick()")
 	return "", clsUnknown
